@@ -57,6 +57,38 @@ func opts() gen.SchemaOpts {
 	return o
 }
 
+// taggedMessages builds the shape on which the library's way of singling out some messages matters: it keeps the
+// messages of composition alternatives that start with a marker ("IMPORTANT!") whatever the outcome of the
+// composition, and a message starts with the name of the offending member. So: a composition whose alternatives
+// fail on a root-level member named like the marker, or on the one message the library itself tags (a "headers"
+// member holding a $ref in an object closed by additionalProperties:false), next to alternatives that accept.
+func taggedMessages(t *rapid.T) (map[string]any, any) {
+	name := gen.PickUniform(t, []string{"IMPORTANT!x", "IMPORTANT!", "headers"}, "taggedname")
+	var failing map[string]any
+	var inst map[string]any
+	if name == "headers" {
+		failing = map[string]any{"additionalProperties": false, "properties": map[string]any{"a": map[string]any{}}}
+		inst = map[string]any{"headers": map[string]any{"h": map[string]any{"$ref": "#/x"}}}
+	} else {
+		failing = map[string]any{"properties": map[string]any{name: map[string]any{"type": "integer"}}}
+		inst = map[string]any{name: "not an integer"}
+	}
+	other := gen.PickUniform(t, []map[string]any{{"type": "object"}, {}, {"required": []any{"zz"}}, {"minProperties": gen.Number(1)}}, "taggedother")
+	alts := []any{failing, other}
+	if rapid.Bool().Draw(t, "taggedorder") {
+		alts = []any{other, failing}
+	}
+	if rapid.Bool().Draw(t, "taggedthird") {
+		alts = append(alts, map[string]any{"type": "object", "maxProperties": gen.Number(5)})
+	}
+	doc := map[string]any{gen.PickUniform(t, []string{"anyOf", "anyOf", "oneOf", "allOf"}, "taggedcomp"): alts}
+	if rapid.Bool().Draw(t, "taggednested") {
+		doc = map[string]any{"properties": map[string]any{"p": doc}}
+		return doc, map[string]any{"p": inst}
+	}
+	return doc, inst
+}
+
 func genCase(t *rapid.T) Case {
 	doc := gen.Schema(t, opts())
 	budget := 12
@@ -64,6 +96,9 @@ func genCase(t *rapid.T) Case {
 		budget = 30
 	}
 	inst := gen.InstanceFor(t, doc, budget)
+	if gen.UniformIndex(t, 64, "tagged") == 0 {
+		doc, inst = taggedMessages(t)
+	}
 	r := "custom"
 	if rapid.IntRange(0, 9).Draw(t, "nilreg") == 0 {
 		r = "nil"
